@@ -16,7 +16,7 @@ from ..fa import FA
 from ..loader import AnalysisError
 from .valeq import check_typed_identity
 from .ladders import extract_ladder, check_ladder_order, repo_subclass_pairs
-from .c16 import (FlatInit, conds, ftext, is_copy_of, lit_expr, origin, same_def, single_def, strip_cast, _ref_name)
+from .c16 import (FlatInit, canon_conj, conds, ftext, is_copy_of, lit_expr, origin, same_def, single_def, strip_cast, _ref_name)
 
 AH = "reference.ArgumentHasher"
 FRA = "reference.FunctionReferenceWithArguments"
@@ -52,8 +52,24 @@ def _value_types(fa, param):
 
 def result_cases(fa):
     """What the function returns under which path condition: [(conjunct, value expression, node)].  A single
-    exit that returns a local assigned on several branches is split into those assignments."""
+    exit that returns a local assigned on several branches is split into those assignments, a conditional
+    expression into its two cases."""
     out = []
+
+    def split(conj, v, at):
+        try:
+            e = strip_cast(fa.expand(v, at))
+        except AnalysisError:
+            e = v
+        if isinstance(e, ast.IfExp):
+            for pol, branch in ((True, e.body), (False, e.orelse)):
+                extra = canon_conj(fa._atoms(e.test, at, pol))
+                if any((t, not p) in conj for (t, p) in extra):
+                    continue
+                split(frozenset(conj | extra), branch, at)
+            return
+        out.append((conj, e if e is not v else v, at))
+
     for r in fa.returns():
         ids = fa.nodes(r)
         if not ids or r.value is None:
@@ -64,10 +80,10 @@ def result_cases(fa):
             if len(ds) > 1 and all(d.kind == "assign" and d.value is not None for d in ds):
                 for d in ds:
                     for conj in conds(fa, d.node):
-                        out.append((conj, d.value, d.node))
+                        split(conj, d.value, d.node)
                 continue
         for conj in conds(fa, ids[0]):
-            out.append((conj, v, ids[0]))
+            split(conj, v, ids[0])
     return out
 
 
@@ -408,7 +424,10 @@ def check(ck):
     # what is fed to the digest: update(...) arguments and the constructor's data argument
     feeds = []
     for c in ch.calls("update"):
-        if c.args:
+        recv = A.call_recv(c)
+        o_ = origin(ch, recv, ch.nodes(c)[0]) if recv is not None and ch.nodes(c) else None
+        made = strip_cast(o_.value) if o_ is not None else (strip_cast(recv) if recv is not None else None)
+        if c.args and (any(made is h for h in hashers) or not hashers):
             feeds.append((c, c.args[0]))
     for c in hashers:
         data = [a for a in c.args if not (A.call_dotted(c) == "hashlib.new" and a is c.args[0])]
